@@ -277,7 +277,7 @@ def cache_counters():
     return (CACHE._fi_hit, CACHE._fi_missed, CACHE._fi_missed_too_long)
 
 
-def world_reset(maxsize=DEFAULT_MAXSIZE, maxsectors=DEFAULT_MAXSECTORS):
+def world_reset(maxsize=DEFAULT_MAXSIZE, maxsectors=DEFAULT_MAXSECTORS, debug=False):
     """Put every piece of process-wide library state into a known state."""
     restore_globals()
     CACHE._fuseinfos.clear()
@@ -288,9 +288,10 @@ def world_reset(maxsize=DEFAULT_MAXSIZE, maxsectors=DEFAULT_MAXSECTORS):
     AC._DEFAULT_TENSORDOT_MODE = "auto"
     set_cache_limits(maxsize, maxsectors)
     # the library's own audit must neither mask nor pre-empt our oracles
-    AC.DEBUG = False
-    LA.DEBUG = False
-    sr.utils.DEBUG = False
+    # (an engine may switch it on for a whole run as a configuration knob)
+    AC.DEBUG = bool(debug)
+    LA.DEBUG = bool(debug)
+    sr.utils.DEBUG = bool(debug)
 
 
 # ---------------------------------------------------------------- json
